@@ -410,6 +410,43 @@ fn c20_canon_map_collision_probe(rep: &mut Report) {
     }
 }
 
+/// Directed scenarios for the hash-backed structures the random generator does not produce (stream maps, canon maps,
+/// folds over them, canon map lenses, wide fan-out): every step of a short random history is re-executed `reps` times on
+/// identical inputs (each execution builds its maps afresh, i.e. with new hash seeds) and once in a fresh process.
+fn c20_map_scenarios(rep: &mut Report, seed: u64, reps: usize) {
+    let p = peers_for(4);
+    let (a, b, c, d) = (&p[0].id, &p[1].id, &p[2].id, &p[3].id);
+    let aps = r#"(seq (ap ("k1" "v1") %m) (seq (ap ("k2" "v2") %m) (seq (ap ("k3" "v3") %m) (seq (ap ("k4" "v4") %m) (ap ("k1" "v5") %m)))))"#;
+    let scripts: Vec<(&str, String)> = vec![
+        ("fold over a canon map, calls in the body, replayed from data", format!(r#"(seq {aps} (seq (canon "{a}" %m #%cm) (seq (fold #%cm it (seq (call "{a}" ("svc" "echo_1") [it]) (next it))) (seq (fold #%cm it2 (seq (call "{b}" ("svc" "echo_2") [it2]) (next it2))) (call "{c}" ("svc" "echo_3") [#%cm])))))"#)),
+        ("fold over a stream map, calls in the body", format!(r#"(seq {aps} (seq (fold %m it (seq (call "{a}" ("svc" "echo_1") [it]) (next it))) (seq (call "{b}" ("svc" "str_2") [] w) (fold %m it2 (seq (call "{b}" ("svc" "echo_3") [it2]) (next it2))))))"#)),
+        ("canon map into a scalar and lenses into a canon map", format!(r#"(seq {aps} (seq (canon "{a}" %m cms) (seq (canon "{a}" %m #%cm) (seq (call "{b}" ("svc" "echo_1") [cms]) (seq (call "{c}" ("svc" "echo_2") [#%cm.$.k1 #%cm.$.k3]) (call "{a}" ("svc" "echo_3") [#%cm.$.k2.[0]]))))))"#)),
+        ("map filled from several peers, canonicalised elsewhere", format!(r#"(seq (seq (call "{a}" ("svc" "str_1") [] x) (seq (ap ("p" x) %m) (seq (call "{b}" ("svc" "str_2") [] y) (seq (ap ("q" y) %m) (seq (call "{c}" ("svc" "str_3") [] z) (ap ("r" z) %m)))))) (seq (canon "{d}" %m #%cm) (seq (fold #%cm it (seq (call "{d}" ("svc" "echo_4") [it]) (next it))) (call "{a}" ("svc" "echo_5") [#%cm]))))"#)),
+        ("wide fan-out: many next peers and requests in one run", format!(r#"(seq (call "{a}" ("svc" "arr_1") [] l) (par (par (call "{b}" ("svc" "echo_2") [l]) (call "{c}" ("svc" "echo_3") [l])) (par (call "{d}" ("svc" "echo_4") [l]) (par (call "{a}" ("svc" "echo_5") [l]) (call "{a}" ("svc" "echo_6") [l])))))"#)),
+        ("new-scoped map per fold iteration", format!(r#"(seq (call "{a}" ("svc" "arr_1") [] l) (fold l i (seq (new %n (seq (ap ("x" i) %n) (seq (ap ("y" i) %n) (seq (canon "{a}" %n #%cn) (call "{b}" ("svc" "echo_2") [#%cn]))))) (next i))))"#)),
+    ];
+    for (si, (what, air)) in scripts.iter().enumerate() {
+        if air_parser::parse(air).is_err() { rep.stat("c20_map_scenario_rejected_by_parser"); rep.oracle_fail(json!({"why": format!("harness: directed C20 scenario does not parse: {what}"), "input": {"air": air}})); continue; }
+        for round in 0..2u64 {
+            let mut net = Net::new(air, &p, &format!("c20-map-{si}-{round}"));
+            let mut r2 = Rng::new(seed ^ (si as u64 * 7919 + round * 104729));
+            net.run_random(&mut r2, 60);
+            rep.stat("c20_map_histories");
+            for st in &net.log {
+                rep.stat(&format!("c20_map_step_code:{}", st.outcome.ret_code));
+                for k in 0..reps {
+                    rep.evaluations += 1;
+                    let why = if k == 0 { check_c20_fresh_process(&net, st) } else { check_c20_step(&net, st) };
+                    if let Some(why) = why {
+                        rep.oracle_fail(json!({"why": format!("{why} [directed scenario: {what}; step {} on peer {}]", st.step, net.peers[st.peer].peer.name), "input": step_json(&net, st), "scenario": "c20 map scenarios"}));
+                        return;
+                    }
+                }
+            }
+        }
+    }
+}
+
 // ---------------------------------------------------------------- drivers
 
 fn canon_case(h: &Hist) -> String { format!("{}|{}", h.air, h.net.log.iter().map(|s| format!("{}:{}:{}", s.peer, s.event, s.outcome.ret_code)).collect::<Vec<_>>().join(",")) }
@@ -438,7 +475,7 @@ pub fn run_property(prop: &str, ctx: &mut Ctx, rep: &mut Report) {
             }
         }
     }
-    if prop == "C20" { c20_canon_map_collision_probe(rep); }
+    if prop == "C20" { c20_canon_map_collision_probe(rep); c20_map_scenarios(rep, ctx.seed, if ctx.thorough { 24 } else { 8 }); }
     for hi in 0..pl.histories {
         let streams = pl.streams_every == 1 || hi % pl.streams_every == 1;
         let budget = 6 + rng.below(pl.budget); let mut h = gen_history(&mut rng, streams, pl.fragment, budget, pl.max_steps);
